@@ -12,7 +12,6 @@ correspond: every exported step description -> Lean recomputes the Variant-Id bi
   StepIR.getDigestCoro), synthetic descriptions through StepIR.fromData (weird strings, 0..40 byte digests),
   mergeScripts / joinScripts on random fragments, checkout digest script composition, weak/strong split.
 """
-import base64
 import json
 import os
 import random
@@ -184,13 +183,115 @@ def check_family(ctx, members, report=True):
     return out
 
 
+class _Policies:
+    """stand-in for the RecipeSet argument of bob.scm.getScm: all policies at their new behaviour"""
+
+    def getPolicy(self, name, location=None):
+        return True
+
+    def getProjectRoot(self):
+        return ""
+
+    def getPreMirrors(self):
+        return []
+
+    def getFallbackMirrors(self):
+        return []
+
+
+def gen_scm_spec(r):
+    from gen import projects as G
+    k = r.random()
+    if k < 0.7:
+        s = G._gen_scm(r, r.randrange(3))
+    elif k < 0.85:
+        s = {"scm": "svn", "url": r.choice(["svn://svn.test/a", "svn://svn.test/b"]), "dir": "s%d" % r.randrange(3)}
+        if r.random() < 0.5:
+            s["revision"] = r.choice([7, 123, "HEAD"])
+    else:
+        s = {"scm": "cvs", "cvsroot": r.choice([":ext:cvs.test:/r", "/local/cvs"]), "module": r.choice(["m", "n"]),
+             "dir": "s%d" % r.randrange(3)}
+        if r.random() < 0.5:
+            s["rev"] = r.choice(["v1", "HEAD"])
+    s.pop("if", None)
+    return s
+
+
+def edit_scm_spec(r, s):
+    s = dict(s)
+    k = r.choice(sorted(x for x in s if x != "scm"))
+    v = s[k]
+    if isinstance(v, bool):
+        s[k] = not v
+    elif isinstance(v, int):
+        s[k] = v + 1
+    elif isinstance(v, list):
+        s[k] = v + ["mx"]
+    elif k.startswith("digest") or k == "commit":
+        s[k] = ("%x" % ((int(v[0], 16) + 1) % 16)) + v[1:]
+    else:
+        s[k] = str(v) + "e"
+    return s, k
+
+
+def scm_views(spec):
+    from bob.scm import getScm
+    scm = getScm(dict(spec, __source="Recipe x", recipe="recipes/x.yaml"), [], _Policies())
+    from gen.stepdesc import scm_sem
+    return scm.asDigestScript(), scm_sem(scm.getProperties(False))
+
+
+def check_scm_pair(ctx, a, b, key, report=True):
+    from bob.errors import ParseError
+    try:
+        (da, sa), (db, sb) = scm_views(a), scm_views(b)
+    except ParseError:
+        return False
+    if (da == db) != (sa == sb):
+        if report:
+            ctx.violation("SCM descriptions %r / %r: digest lines %r / %r but documented meaning %r / %r" % (a, b, da, db, sa, sb),
+                          {"kind": "scm-pair", "a": a, "b": b}, "scm-digest-line-" + ("collision" if da == db else "not-pure")
+                          + "-" + a["scm"] + "-" + key)
+        return True
+    return False
+
+
+def assert_views(spec):
+    from bob.input import CheckoutAssert
+    a = CheckoutAssert(dict(spec, __source="x"))
+    p = a.getProperties()
+    return a.asDigestScript(), (p["file"], p["digestSHA1"], p["start"], p["end"])
+
+
+def oracle_scm(ctx):
+    """the symbolic description of SCMs and assertions, pair by pair, through the public SCM classes"""
+    r = ctx.subrng("scm")
+    for i in range(ctx.scale(3000, 60000)):
+        a = gen_scm_spec(r)
+        b, k = edit_scm_spec(r, a) if r.random() < 0.8 else (gen_scm_spec(r), "other")
+        ctx.case(("scm", json.dumps([a, b], sort_keys=True)))
+        ctx.count("scm_pairs", a["scm"])
+        check_scm_pair(ctx, a, b, k)
+    for i in range(ctx.scale(400, 5000)):
+        a = {"file": r.choice(["a.txt", "b c.txt"]), "digestSHA1": r.choice(["da39", "a999"])}
+        if r.random() < 0.5:
+            a["start"] = r.randrange(1, 4)
+        if r.random() < 0.5:
+            a["end"] = r.randrange(4, 9)
+        b = dict(a)
+        k = r.choice(["file", "digestSHA1", "start", "end"])
+        b[k] = (b.get(k, 1 if k == "start" else 20) + 1) if k in ("start", "end") else b[k] + "0"
+        ctx.case(("assert", json.dumps([a, b], sort_keys=True)))
+        (da, sa), (db, sb) = assert_views(a), assert_views(b)
+        if (da == db) != (sa == sb):
+            ctx.violation("checkoutAssert %r / %r: digest lines %r / %r" % (a, b, da, db), {"kind": "assert-pair", "a": a, "b": b},
+                          "assert-digest-line-" + k)
+
+
 def _family(ctx, i, nedits, size_lo=3, size_hi=12):
     from gen import projects as G
     rng = ctx.subrng("family", i)
-    for attempt in range(6):
-        P = G.gen_project(rng, rng.randrange(size_lo, size_hi))
-        if attempt == 0 or True:
-            break
+    P = G.gen_project(rng, rng.randrange(size_lo, size_hi))
     members = [{"project": P.to_json(), "edit": None}]
     it = P.edits(rng)
     for _ in range(nedits):
@@ -262,12 +363,13 @@ def _account_family(ctx, fam):
 
 def oracle(ctx):
     import time
-    nfam = ctx.scale(40, 1500)
-    nedits = ctx.scale(25, 60)
-    nmin = 3          # families that are always evaluated (in this process), whatever the machine load is
+    nfam = ctx.scale(60, 1500)
+    nedits = ctx.scale(12, 40)
+    nmin = 6          # families that are always evaluated (in this process), whatever the machine load is
     all_fams = []
     t_oracle = ctx.time_left()
     t0 = time.time()
+    oracle_scm(ctx)
     # the reproductions of the known collisions are always part of the stream
     wf = _evaluate_families(ctx, _witness_families(), "wit")
     for fam in wf:
@@ -489,7 +591,9 @@ def impl_merge(frags, glue):
 
 
 def correspond(ctx):
+    import time
     from gen import stepdesc as S
+    t0 = time.time()
     fams = _CACHE.get("fams")
     if fams is None:
         fams = _evaluate_families(ctx, _witness_families() + [_family(ctx, i, 4) for i in range(6)], "corr")
@@ -517,6 +621,7 @@ def correspond(ctx):
             if got.get("ok") != w:
                 ctx.disagree("Step.getVariantId == Digest.variantId sha1 (exported description)", c, w, got.get("ok"))
         ctx.trace_validated(len(reqs))
+    ctx.notes["t_corr_steps_s"] = round(time.time() - t0, 1)
     # R4 / R5: checkout digest script composition, weak/strong split
     reqs, want, cases = [], [], []
     from gen import projects as G
@@ -577,6 +682,7 @@ def correspond(ctx):
                         ctx.disagree("Step.toolDep/toolDepWeak == PrepareTail.toolDep/toolDepWeak", dict(c, step=r2["key"]),
                                      {"dep": r2["tooldep"], "weak": r2["tooldep_weak"]}, mod)
         ctx.trace_validated(len(reqs))
+    ctx.notes["t_corr_split_s"] = round(time.time() - t0, 1)
     # R2: synthetic descriptions through StepIR.getDigestCoro
     r = ctx.subrng("synth")
     reqs, want, cases = [], [], []
@@ -596,6 +702,7 @@ def correspond(ctx):
         if got.get("ok") != w:
             ctx.disagree("StepIR.getDigestCoro == Digest.variantId/buildId sha1 (synthetic description)", c, w, got.get("ok"))
     ctx.trace_validated(len(reqs))
+    ctx.notes["t_corr_synth_s"] = round(time.time() - t0, 1)
     # R3: mergeScripts / joinScripts
     r = ctx.subrng("merge")
     reqs, want, cases = [], [], []
@@ -613,6 +720,7 @@ def correspond(ctx):
         if g != w:
             ctx.disagree("mergeScripts/joinScripts == Scripts.mergeScripts", c, w, g)
     ctx.trace_validated(len(reqs))
+    ctx.notes["t_corr_total_s"] = round(time.time() - t0, 1)
 
 
 # ---------------------------------------------------------------------- replay
@@ -649,6 +757,12 @@ def replay(ctx, case):
         for what, c, sig in check_family(ctx, fam, report=False):
             if c.get("kind") == "edit":
                 ctx.violation(what, c, sig)
+    elif k == "scm-pair":
+        check_scm_pair(ctx, case["a"], case["b"], "replay")
+    elif k == "assert-pair":
+        (da, sa), (db, sb) = assert_views(case["a"]), assert_views(case["b"])
+        if (da == db) != (sa == sb):
+            ctx.violation("checkoutAssert digest lines", case, "assert-digest-line")
     elif k == "revert":
         res = _eval_revert((os.path.join(ctx.tmp, "rr"), case["base"]["project"], case["m"]["project"], case["base"]["sandbox"], 2000))
         fam = [dict(case["base"], edit=None), case["m"]]
